@@ -453,6 +453,12 @@ def campaign(col, tier, seed, shard, nshards):
     enum_cross(col, tier, shard, nshards, seed)
     n = 4000 if tier == "quick" else 200000
     hyp_campaign(col, strategy(), run_case_any, max(n // nshards, 100), seed * 100 + shard)
+    if tier == "thorough":
+        import sys as _sys
+
+        from ..common import fuzz_stage
+
+        fuzz_stage(col, _sys.modules[__name__], 100000 // nshards, seed * 100 + shard)
 
 
 _plain_run_case = run_case
